@@ -111,6 +111,8 @@ CFG_SIDE = {
     "kw-headers-merge": {"url": "ws://h.test/g", "headers": {"X-A": "1", "X-B": "2"}, "kw_headers": {"X-B": "override", "X-C": "3"}},
     "kw-headers-only": {"url": "ws://h.test/g", "kw_headers": {"X-C": "3"}},
     "kw-origin-override": {"url": "ws://h.test/g", "origin": "https://o.test", "kw_other": {"origin": "https://kw.test", "open_timeout": 5}},
+    "origin+kw-other": {"url": "ws://h.test/g", "origin": "https://o.test", "kw_other": {"open_timeout": 5}},
+    "origin+kw-headers": {"url": "ws://h.test/g", "origin": "https://o.test", "headers": {"X-A": "1"}, "kw_headers": {"X-C": "3"}},
     "kw-other": {"url": "ws://h.test/g", "kw_other": {"ping_interval": None, "max_size": 1024}, "init_payload": {"a": 1}},
 }
 
@@ -140,6 +142,33 @@ def _cases_for_task(task):
 ALL_COMBOS = [(i, v) for i in ("unset", "set") for v in ("none", "rich")]
 
 
+def _model_batch(cmds):
+    """like model.batch, single process, but identical answer lines (plain / otel without tracer,
+    often spec) are decoded once"""
+    import subprocess
+
+    from .. import sexp
+
+    exe = model.binary("C13")
+    if not os.path.exists(exe):
+        raise model.ModelError(f"model driver not built: {exe}")
+    if not cmds:
+        return []
+    p = subprocess.run([exe], input=("\n".join(sexp.dumps(c) for c in cmds) + "\n").encode(),
+                       stdout=subprocess.PIPE, stderr=subprocess.PIPE, timeout=1800)
+    if p.returncode != 0:
+        raise model.ModelError(f"modelrun exit {p.returncode}: {p.stderr[-500:]!r}")
+    lines = p.stdout.decode("utf-8", errors="surrogateescape").splitlines()
+    if len(lines) != len(cmds):
+        raise model.ModelError(f"modelrun answered {len(lines)} of {len(cmds)} lines")
+    out, last, last_dec = [], None, None
+    for l in lines:
+        if l != last:
+            last, last_dec = l, sexp.loads(l)
+        out.append(last_dec)
+    return out
+
+
 def _worker(task):
     """runs in a forked process: implementation runs + model batch + comparison for one task"""
     from . import c13_impl as I
@@ -155,7 +184,7 @@ def _worker(task):
         for v in ("plain", "otel", "otel-tracer", "spec"):
             cmds.append([Sym("ws"), v, c, rq, fs])
         cmds.append([Sym("guards"), rq, fs])
-    res = model.batch("C13", cmds, jobs=1, chunk=1000000)
+    res = _model_batch(cmds)
     out = {"runs": 0, "cases": 0, "nontrivial": 0, "dist": {}, "k1": [], "dev": [], "samples": [],
            "model_errors": []}
 
@@ -197,7 +226,7 @@ def _worker(task):
                 diffs.append("ws_connect not called/entered/exited exactly once: %r" % (tr["ctx"],))
             # ---- K3: the property oracle (spec) on the observables of the text
             ip = I.project(tr)
-            dev = [k for k in ("sent", "yielded", "closes", "fin") if I.strict(ip[k]) != I.strict(sp[k])]
+            dev = [k for k in ("connect", "sent", "yielded", "closes", "fin") if I.strict(ip[k]) != I.strict(sp[k])]
             cls = None
             if dev:
                 cls = ("C13-vars-not-json" if not g_vars else "C13-shape-crash" if not g_shape
@@ -273,11 +302,12 @@ def run(ctx):
     from . import c13_impl as I
 
     maxlen = 5 if ctx.thorough else 4
-    rotate_len = 6 if ctx.thorough else None
+    rotate_len = None   # (a rotating-configuration sweep of all length-6 sequences costs ~15 min more; the
+    # sequences of length maxlen+1 that do not start with the ack stop at their first frame)
     run.rule = (f"EXHAUSTIVE: every sequence of length 0..{maxlen} over the 13-letter frame alphabet {LETTERS} "
                 "x {init payload unset, set} x {variables none, rich (UNSET, aliased pydantic models with unset fields, "
                 "nested lists)} x {plain client, OpenTelemetry client without tracer, with a recording tracer}"
-                + f"; every ack-prefixed sequence of length {maxlen + 1} (same product)"
+                + f"; every ack-prefixed sequence of length {maxlen + 1} x {{init unset + variables none, init set + variables rich}} x the 3 clients"
                 + (f"; length {rotate_len} with the configuration rotated per sequence" if rotate_len else "")
                 + "; plus malformed-shape, variables and connect-parameter side streams and a real-websockets-server sample. "
                 "evaluations = execute_ws runs; non-trivial = distinct frame sequences whose first frame is the ack and "
@@ -299,7 +329,7 @@ def run(ctx):
     # every ACK-PREFIXED sequence one frame longer (uniform enumeration spends 12/13 of its cases on a
     # first frame that is not the ack)
     for prefix in itertools.product(range(len(LETTERS)), repeat=2):
-        tasks.append(("exh", (0,) + prefix, maxlen + 1, ALL_COMBOS))
+        tasks.append(("exh", (0,) + prefix, maxlen + 1, [ALL_COMBOS[0], ALL_COMBOS[3]]))
     if rotate_len:
         for prefix in itertools.product(range(len(LETTERS)), repeat=3):
             tasks.append(("exh", prefix, rotate_len, [("rot", "rot")]))
@@ -350,15 +380,15 @@ def run(ctx):
             x, found_input=outside)
     # ---- K3 deviations
     devs.sort(key=lambda d: len(d["replay"]["frames"]))
-    seen = set()
+    seen, outside = set(), 0
     for d in devs:
         cls = d["class"]
         what = "execute_ws deviates from graphql-transport-ws in %s on frames %s (%s, vars %s, %s)" % (
             d["deviates_in"], d["replay"]["letters"], d["replay"]["cfg_name"], d["replay"]["vars"], d["replay"]["variant"])
         if cls is None:
-            if len([1 for s in seen if s is None]) < 3:
+            outside += 1
+            if outside <= 3:
                 run.violation(what, d)
-            seen.add(None)
         elif cls not in seen:
             seen.add(cls)
             run.finding(cls, what, d)
